@@ -10,6 +10,7 @@
 
    Definitions only; executable (the correspondence check runs [run_actions] under vm_compute). *)
 From Coq Require Import List Bool Arith.
+From SlskGen Require Import C10LifeGen.
 Import ListNotations.
 
 Inductive kind := Server | Outgoing | Incoming.
@@ -73,10 +74,28 @@ Record conn := mk {
 Definition init (k : kind) (t : ctype) : conn :=
   mk k t UNINIT [] false RNone AwaitInit WNone ANone ResNone 0 0 0 0 false false false 0 0.
 
+(* GENERATED structure (SlskGen.C10LifeGen, from connection.py / network.py): the order of the ConnectionState enum,
+   Connection._CLOSING_STATES, the idempotence guard of DataConnection.disconnect, the state on which Network
+   unregisters a peer connection, and the presence of the constructs named by the flags used in [step0] below
+   (each flag's [else] branch is the behaviour of the code without the construct). *)
 Definition rank (s : cst) : nat :=
-  match s with UNINIT => 0 | CONNECTING => 1 | CONNECTED => 2 | CLOSING => 3 | CLOSED => 4 end.
+  match s with UNINIT => RANK_UNINITIALIZED | CONNECTING => RANK_CONNECTING | CONNECTED => RANK_CONNECTED
+             | CLOSING => RANK_CLOSING | CLOSED => RANK_CLOSED end.
 
-Definition closing (s : cst) : bool := match s with CLOSING | CLOSED => true | _ => false end.
+(* Connection._is_closing after set_state(s) *)
+Definition closing (s : cst) : bool :=
+  match s with UNINIT => CLOSING_STATE_UNINITIALIZED | CONNECTING => CLOSING_STATE_CONNECTING | CONNECTED => CLOSING_STATE_CONNECTED
+             | CLOSING => CLOSING_STATE_CLOSING | CLOSED => CLOSING_STATE_CLOSED end.
+
+(* `if self.state in (...): return` at the top of DataConnection.disconnect *)
+Definition guarded (s : cst) : bool :=
+  match s with UNINIT => GUARD_UNINITIALIZED | CONNECTING => GUARD_CONNECTING | CONNECTED => GUARD_CONNECTED
+             | CLOSING => GUARD_CLOSING | CLOSED => GUARD_CLOSED end.
+
+(* Network._on_peer_connection_state_changed: remove_peer_connection when the new state is ... *)
+Definition removes (s : cst) : bool :=
+  match s with UNINIT => REGISTRY_REMOVE_ON_UNINITIALIZED | CONNECTING => REGISTRY_REMOVE_ON_CONNECTING
+             | CONNECTED => REGISTRY_REMOVE_ON_CONNECTED | CLOSING => REGISTRY_REMOVE_ON_CLOSING | CLOSED => REGISTRY_REMOVE_ON_CLOSED end.
 Definition is_server (k : kind) : bool := match k with Server => true | _ => false end.
 Definition cst_eqb (a b : cst) : bool := Nat.eqb (rank a) (rank b).
 
@@ -87,7 +106,7 @@ Definition ok_next (k : kind) (a b : cst) : bool :=
 (* Connection.set_state + Network.on_state_changed *)
 Definition report (s : cst) (c : conn) : conn :=
   mk (kd c) (ty c) s (s :: rep c)
-     (if cst_eqb s CLOSED then false else in_reg c)
+     (if removes s then false else in_reg c)
      (reader c) (pc c) (writer c) (at_ c) (res c) (closers c) (detached c) (delivered c) (sent c)
      (seen_closed c || cst_eqb s CLOSED)
      (viol c || negb (ok_next (kd c) (st c) s))
@@ -130,7 +149,7 @@ Definition finish_close (c : conn) : conn :=
 (* DataConnection.disconnect up to its first suspension.  Result: the new state and whether the
    caller is now suspended in wait_closed (true) or disconnect() has returned (false). *)
 Definition do_disconnect (c : conn) : conn * bool :=
-  if closing (st c) then (c, false)
+  if guarded (st c) then (c, false)
   else
     let c := report CLOSING c in
     match writer c with
@@ -168,7 +187,7 @@ Definition step0 (c : conn) (e : event) : conn :=
   | ConnectOk =>
       match at_ c with
       | AConnecting =>
-          match st c with
+          match (if CONNECT_RECHECKS_STATE then st c else CONNECTING) with
           | CONNECTING =>
               let c := report CONNECTED (set_writer WOpen c) in
               match kd c with
@@ -191,10 +210,18 @@ Definition step0 (c : conn) (e : event) : conn :=
       end
   | Cancel =>
       match at_ c with
-      | AConnecting | ASending =>
-          (* (repairs F15, F15b) connect() / the attempt coroutine catch CancelledError, run disconnect(), re-raise *)
-          let '(c, blocked) := do_disconnect c in
-          if blocked then set_att (AOwnClose ThenCancel) c else set_res ResCancelled (set_att ANone c)
+      | AConnecting =>
+          (* (repairs F15, F15b) connect() / the attempt coroutine catch CancelledError, run disconnect(), re-raise;
+             the server connection has only connect()'s handler *)
+          if CONNECT_CLOSES_ON_CANCEL || (ATTEMPT_CLOSES_ON_CANCEL && negb (is_server (kd c))) then
+            let '(c, blocked) := do_disconnect c in
+            if blocked then set_att (AOwnClose ThenCancel) c else set_res ResCancelled (set_att ANone c)
+          else set_res ResCancelled (set_att ANone c)
+      | ASending =>
+          if ATTEMPT_CLOSES_ON_CANCEL then
+            let '(c, blocked) := do_disconnect c in
+            if blocked then set_att (AOwnClose ThenCancel) c else set_res ResCancelled (set_att ANone c)
+          else set_res ResCancelled (set_att ANone c)
       | AWaitDet _ | AWaitClose _ =>
           (* cancelled while awaiting the shielded detached disconnect: that task goes on; the coroutine's own
              except-CancelledError handler calls disconnect() (a no-op once CLOSING was reported) and re-raises *)
@@ -202,7 +229,9 @@ Definition step0 (c : conn) (e : event) : conn :=
           if blocked then set_att (AOwnClose ThenCancel) c else set_res ResCancelled (set_att ANone c)
       | AOwnClose ThenRaise | AOwnClose ThenCancel =>
           (* CancelledError out of wait_closed: the finally clause still runs set_state(CLOSED) *)
-          set_res ResCancelled (set_att ANone (set_closers (pred (closers c)) (finish_close c)))
+          if DISCONNECT_CLOSED_IN_FINALLY
+          then set_res ResCancelled (set_att ANone (set_closers (pred (closers c)) (finish_close c)))
+          else set_res ResCancelled (set_att ANone (set_closers (pred (closers c)) c))   (* stays CLOSING for ever *)
       | _ => c
       end
   | SendInit m =>
@@ -211,8 +240,10 @@ Definition step0 (c : conn) (e : event) : conn :=
           match m with
           | SOk => set_res ResOk (set_att ANone (finalize c))
           | _ =>
-              (* _send: await shield(ensure_future(disconnect(reason))) *)
-              set_att (AWaitDet ThenRaise) (set_detached (S (detached c)) c)
+              (* _send: await shield(ensure_future(disconnect(reason))) -- or disconnect() in the failing segment itself *)
+              if SEND_FAILURE_DISCONNECT_DETACHED then set_att (AWaitDet ThenRaise) (set_detached (S (detached c)) c)
+              else let '(c, blocked) := do_disconnect c in
+                   if blocked then set_att (AOwnClose ThenRaise) c else set_res ResFail (set_att ANone c)
           end
       | _ => c
       end
@@ -226,7 +257,9 @@ Definition step0 (c : conn) (e : event) : conn :=
       match kd c, at_ c, st c, rep c, in_reg c with
       | Incoming, ANone, UNINIT, [], false =>
           (* (repair F14) accept() reports CONNECTED first, then on_peer_accepted registers and reads the init message *)
-          set_att AAwaitInit (set_reg true (report CONNECTED (set_writer WOpen c)))
+          if ACCEPT_CONNECTED_BEFORE_HANDLER
+          then set_att AAwaitInit (set_reg true (report CONNECTED (set_writer WOpen c)))
+          else set_att AAwaitInit (set_reg true (set_writer WOpen c))
       | _, _, _, _, _ => c
       end
   | InitRead r =>
@@ -243,7 +276,9 @@ Definition step0 (c : conn) (e : event) : conn :=
       end
   | AcceptReturns =>
       match at_ c with
-      | ARet => set_res ResOk (set_att ANone c)
+      | ARet =>
+          if ACCEPT_CONNECTED_BEFORE_HANDLER then set_res ResOk (set_att ANone c)
+          else set_res ResOk (set_att ANone (report CONNECTED c))     (* unconditional set_state(CONNECTED) after the handler *)
       | _ => c
       end
   | Disconnect _ =>
@@ -264,7 +299,7 @@ Definition step0 (c : conn) (e : event) : conn :=
       match reader c with
       | RRunning =>
           match x with
-          | XMsg => if closing (st c) then set_reader RDone c else bump_delivered c
+          | XMsg => if closing (st c) && READER_RECHECKS_CLOSING then set_reader RDone c else bump_delivered c
           | XUndecodable => if closing (st c) then set_reader RDone c else c
           | _ =>
               let '(c, blocked) := do_disconnect c in
@@ -292,14 +327,15 @@ Definition step0 (c : conn) (e : event) : conn :=
       (* send_message directly or (QSend) in a task created by queue_message.  A write/drain error or timeout makes
          _send spawn the detached disconnect task and await it shielded: the failing segment itself reports nothing;
          a queued sender cancelled by that disconnect's _cancel_queued_messages does not stop it *)
-      if closing (st c) then c                    (* send_message returns silently *)
+      if closing (st c) && SEND_SKIPS_WHEN_CLOSING then c     (* send_message returns silently *)
       else match writer c with
       | WNone => c                                (* ConnectionWriteError "connection is not open", nothing else *)
       | w =>
           let c := match w with WOpen => bump_sent c | _ => c end in
           match m, w with
           | SOk, WOpen => c
-          | _, _ => set_detached (S (detached c)) c
+          | _, _ => if SEND_FAILURE_DISCONNECT_DETACHED then set_detached (S (detached c)) c
+                    else fst (do_disconnect c)      (* disconnect() called in the failing segment itself *)
           end
       end
   end.
